@@ -37,25 +37,12 @@ def run(tier, seed, only=None):
     t0 = time.time()
     d = C.scratch("c18")
     verdicts = C.Verdicts(PROP)
-    pairs, nex, nsim, g, s = typecases.generate_types(tier, seed, d, cfg="Gen_Types_mapped", simulate=False,
+    pairs, nex, nsim, g, s = typecases.generate_types(tier, seed, d, cfg="Gen_Types_mapped" if tier == "quick" else "Gen_Types_mappedx", simulate=False,
                                                       keyf=lambda p: rustgen.canon(p["t"]))
     subst_of = {rustgen.canon(p["t"]): p["s"] for p in pairs}
     types = [p["t"] for p in pairs]
     if only is not None:
         types = only
-    if tier == "quick" and only is None:
-        # depth<=1 exhaustively, a seeded third of depth 2
-        import random
-        rnd = random.Random(seed)
-        types = [t for t in types if max([0] + [1 for _ in rustgen.subterms(t)]) == 0 or
-                 all(not rustgen.subterms(x) for x in rustgen.subterms(t)) or rnd.random() < 0.34]
-        # keep the space closed under subterms
-        have = {rustgen.canon(t) for t in types}
-        for t in list(types):
-            for st in rustgen.all_subterms(t):
-                if rustgen.canon(st) not in have:
-                    have.add(rustgen.canon(st))
-                    types.append(st)
     # add the substituted twin T[M] of every T[N] (TLC computed it with TypeLang!Subst)
     have = {rustgen.canon(t): i for i, t in enumerate(types)}
     for t in list(types):
